@@ -107,9 +107,37 @@ _OTO = _cls_methods(ONE_TO_ONE, 'boltons.dictutils', [
      'kwargs': {'kw': 'Dict κ κ'}, 'result': 'None', 'tie_theorem': 'C17.src_oto_update_dict_eq_model'},
 ])
 
+# boltons.dictutils.ManyToMany.  `self.data` and `self.inv.data` (the inverse object's dict; `self.inv.inv is self`)
+# are the two fields of one record; `inv_data` is not an attribute name, the path `self.inv.data` is mapped to it.
+# Methods that ITERATE OVER A SET (`__setitem__`, `__delitem__`, `replace`, `iteritems`, `update(other
+# ManyToMany)`) are refused: Python does not specify the order and the translator has no proof of independence.
+MANY_TO_MANY = {
+    'name': 'ManyToMany', 'lean_name': 'ManyToMany', 'tparams': ['κ'], 'deceq': ['κ'],
+    'state': {'data': 'Dict κ (Set κ)', 'inv_data': 'Dict κ (Set κ)'},
+    'paths': {'inv.data': 'inv_data'}, 'virtual': ['inv_data'],
+}
+_M2M = _cls_methods(MANY_TO_MANY, 'boltons.dictutils', [
+    {'py': 'add', 'name': 'add', 'params': {'key': 'κ', 'val': 'κ'}, 'result': 'None',
+     'tie_theorem': 'C17.src_m2m_add_eq_model'},
+    {'py': 'remove', 'name': 'remove', 'params': {'key': 'κ', 'val': 'κ'}, 'result': 'None',
+     'tie_theorem': 'C17.src_m2m_remove_eq_model'},
+    {'py': '__getitem__', 'name': 'getitem', 'params': {'key': 'κ'}, 'result': 'Set κ',
+     'tie_theorem': 'C17.src_m2m_getitem_eq_model'},
+    {'py': 'get', 'name': 'get', 'params': {'key': 'κ', 'default': 'Set κ'}, 'result': 'Set κ',
+     'tie_theorem': 'C17.src_m2m_get_eq_model'},
+    {'py': '__contains__', 'name': 'contains', 'params': {'key': 'κ'}, 'result': 'Bool',
+     'tie_theorem': 'C17.src_m2m_contains_eq_model'},
+    {'py': '__len__', 'name': 'len', 'params': {}, 'result': 'Int',
+     'tie_theorem': 'C17.src_m2m_len_eq_model'},
+    {'py': 'update', 'name': 'update_pairs', 'params': {'iterable': 'List (κ × κ)'}, 'result': 'None',
+     'tie_theorem': 'C17.src_m2m_update_pairs_eq_model'},
+    {'py': 'update', 'name': 'update_dict', 'params': {'iterable': 'Dict κ κ'}, 'result': 'None',
+     'tie_theorem': 'C17.src_m2m_update_dict_eq_model'},
+])
+
 SPECS = {
     'C20': _TC,
-    'C17': _OTO,
+    'C17': _OTO + _M2M,
     'C09': [
         {
             'module': 'boltons.iterutils', 'qualname': 'chunk_ranges', 'lean_name': 'chunk_ranges',
